@@ -472,7 +472,7 @@ func saveScenario(path string, sc *Scenario) {
 // childMemKB bounds the address space of every child (ulimit -v): the sandbox has no memory limit of its own and
 // an input that makes fc allocate exponentially must end as the child's "out of memory" fatal error, not as the
 // kernel's OOM killer picking a victim.
-const childMemKB = 6 * 1024 * 1024
+const childMemKB = 3 * 1024 * 1024
 
 func limitedCommand(ctx context.Context, binary string, argv []string) *exec.Cmd {
 	args := append([]string{"-c", fmt.Sprintf("ulimit -v %d; exec \"$0\" \"$@\"", childMemKB), binary}, argv...)
